@@ -1,6 +1,38 @@
--- shard 9 of the closeness / tick-gap sweep (C06 (c), (e)): |tick| in [294912, 327680)
+-- shard 9 of the closeness / tick-gap sweep (C06 (c), (e)): |tick| in [294912, 327680), 16 blocks of 2^11
 import Proofs.Lemmas.ClosePred
 namespace Demeter.TickClose
 set_option maxRecDepth 100000 in
-theorem close_shard_09 : chkN closeSweepPred 294912 shardBits = true := by decide +kernel
+theorem close_blk_294912 : chkN closeSweepPred 294912 11 = true := by decide +kernel
+set_option maxRecDepth 100000 in
+theorem close_blk_296960 : chkN closeSweepPred 296960 11 = true := by decide +kernel
+set_option maxRecDepth 100000 in
+theorem close_blk_299008 : chkN closeSweepPred 299008 11 = true := by decide +kernel
+set_option maxRecDepth 100000 in
+theorem close_blk_301056 : chkN closeSweepPred 301056 11 = true := by decide +kernel
+set_option maxRecDepth 100000 in
+theorem close_blk_303104 : chkN closeSweepPred 303104 11 = true := by decide +kernel
+set_option maxRecDepth 100000 in
+theorem close_blk_305152 : chkN closeSweepPred 305152 11 = true := by decide +kernel
+set_option maxRecDepth 100000 in
+theorem close_blk_307200 : chkN closeSweepPred 307200 11 = true := by decide +kernel
+set_option maxRecDepth 100000 in
+theorem close_blk_309248 : chkN closeSweepPred 309248 11 = true := by decide +kernel
+set_option maxRecDepth 100000 in
+theorem close_blk_311296 : chkN closeSweepPred 311296 11 = true := by decide +kernel
+set_option maxRecDepth 100000 in
+theorem close_blk_313344 : chkN closeSweepPred 313344 11 = true := by decide +kernel
+set_option maxRecDepth 100000 in
+theorem close_blk_315392 : chkN closeSweepPred 315392 11 = true := by decide +kernel
+set_option maxRecDepth 100000 in
+theorem close_blk_317440 : chkN closeSweepPred 317440 11 = true := by decide +kernel
+set_option maxRecDepth 100000 in
+theorem close_blk_319488 : chkN closeSweepPred 319488 11 = true := by decide +kernel
+set_option maxRecDepth 100000 in
+theorem close_blk_321536 : chkN closeSweepPred 321536 11 = true := by decide +kernel
+set_option maxRecDepth 100000 in
+theorem close_blk_323584 : chkN closeSweepPred 323584 11 = true := by decide +kernel
+set_option maxRecDepth 100000 in
+theorem close_blk_325632 : chkN closeSweepPred 325632 11 = true := by decide +kernel
+theorem close_shard_09 : chkN closeSweepPred 294912 shardBits = true :=
+  (chkN_join _ 294912 14 (chkN_join _ 294912 13 (chkN_join _ 294912 12 (chkN_join _ 294912 11 close_blk_294912 close_blk_296960) (chkN_join _ 299008 11 close_blk_299008 close_blk_301056)) (chkN_join _ 303104 12 (chkN_join _ 303104 11 close_blk_303104 close_blk_305152) (chkN_join _ 307200 11 close_blk_307200 close_blk_309248))) (chkN_join _ 311296 13 (chkN_join _ 311296 12 (chkN_join _ 311296 11 close_blk_311296 close_blk_313344) (chkN_join _ 315392 11 close_blk_315392 close_blk_317440)) (chkN_join _ 319488 12 (chkN_join _ 319488 11 close_blk_319488 close_blk_321536) (chkN_join _ 323584 11 close_blk_323584 close_blk_325632))))
 end Demeter.TickClose
